@@ -31,7 +31,7 @@ def detect_fixes(repo):
 
 
 BASE = dict(NReq=2, Tags={1, 2}, Fids={1}, Kinds={"Stat", "Flush"}, FixFallthrough=False, FixStale=False,
-            FixClose=False, SharedTags=False, HasFlushOp=False, Extra=False, Late=False, PoolCap=4, Maxpend=0,
+            FixClose=False, FixOrder=False, FixChain=False, SharedTags=False, HasFlushOp=False, Extra=False, Late=False, PoolCap=4, Maxpend=0,
             InitFids={1}, CanClose=False, Held=set())
 
 
@@ -43,9 +43,10 @@ def consts(ctx, **over):
     return c
 
 
-def harness_cfg(c, handshake=True):
+def harness_cfg(c, handshake=True, bystander=False):
     return {"NT": max(c["Tags"]), "NF": max(c["Fids"]), "HasFlushOp": c["HasFlushOp"],
-            "InitFids": sorted(c["InitFids"]), "Maxpend": c["Maxpend"], "Dotu": True, "Handshake": handshake}
+            "InitFids": sorted(c["InitFids"]), "Maxpend": c["Maxpend"], "Dotu": True, "Handshake": handshake,
+            "Bystander": bystander}
 
 
 def normalise_ext(src, dst):
@@ -75,7 +76,7 @@ def normalise_ext(src, dst):
                  "fw": bool(ev == "R" and e.get("type") == "Rerror" and not re.fullmatch(r"E\d+", ename)),
                  "bad": e.get("bad", "") or "", "out": e.get("out", "") or "", "op": e.get("op", "") or "",
                  "parked": [p for p in parked if not p.startswith("impl:")], "held": held,
-                 "valid": bool(e.get("valid", False)), "initial": bool(e.get("initial", False)),
+                 "valid": bool(e.get("valid", False)), "ok": bool(e.get("ok", True)), "initial": bool(e.get("initial", False)),
                  "what": (e.get("what", "") or "")[:300]}
             g.write(json.dumps(o) + "\n")
             n += 1
@@ -132,10 +133,15 @@ def run_trace_validation(ctx, trace_path, c, name="Srv9PTrace"):
     return rejects, nlines
 
 
-def behaviours_tour(ctx, c, tag, sample_edges=None, max_paths=None):
+def behaviours_tour(ctx, c, tag, sample_edges=None, max_paths=None, max_edges=600000):
     """Exhaustive graph of config c, transition tour over it.  Returns (paths, covered, total, TLCResult)."""
     cfg = "Srv9P_%s_graph.cfg" % tag
     ctx.write_cfg(cfg, c, spec="Spec")
+    # guard: a dumped graph costs ~1 KB per edge on disk; measure the model first
+    pre = ctx.tlc("Srv9P", cfg, timeout=900, name=cfg + ":size")
+    if not pre.ok or pre.generated > max_edges:
+        ctx.inconclusive.append("state graph of %s too large for a transition tour (%d transitions)" % (tag, pre.generated))
+        return [], 0, 0, pre
     r, dot = ctx.tlc_dump_graph("Srv9P", cfg, timeout=1500)
     if not r.ok:
         ctx.inconclusive.append("graph dump of %s failed: %s" % (tag, r.error or r.violated))
